@@ -782,9 +782,9 @@ def replay(ctx, path):
 
 
 MANIFEST = {
-    "technique": "Lean 4 proof (invariant over all stream-buffer op sequences and page sizes for the LogEntry layout; invariant over all event histories of an abstract appender) + translator-generated constants/skeletons + E-SEQ differential correspondence with a byte/page oracle + multi-threaded oracle runs of the real appender with model replay of the recorded trace",
+    "technique": "Lean 4 proof (invariant over all stream-buffer op sequences and page sizes for the LogEntry layout; invariant over all event histories of an abstract appender) + translator-generated constants/skeletons + E-SEQ differential correspondence with a byte/page oracle + multi-threaded native oracle runs of the real appender with model replay of the recorded rounds + E-CONC: the real appender under VRT (deterministic scheduler, SC / PCT / view-mode stale reads) with lock-step replay of every ticket, publication, pop, writev and page return through the abstract model's step function",
     "text": "Part A theorems (entry_bytes_exact, entry_pages_once, entry_discard_returns_all) hold for every sequence of sputn/sputc/sync and every page size with 8 | ps, ps >= 24 (ps > 0 for entries that fit the inline pages) of a statement-level model of LogStreamBuffer/LogEntry; part B (appender_each_once_ordered) holds for every event history of an abstract model of AsyncFileAppender; both are re-tied to /repo on each run by gen/log.py and by running model and real code on the same generated inputs",
-    "note": "Trusted: Lean kernel + 3 standard axioms; gen/log.py; harness/c20.cpp and its generator (sampling); libstdc++ xsputn transcription; writev complete; part B is a theorem about the abstract model, tied to the real appender by sampled OS schedules only; page size 16 (and sizes not divisible by 8) are excluded by hypothesis - the real code overruns the heap there",
+    "note": "Trusted: Lean kernel + 3 standard axioms; gen/log.py; harness/c20.cpp and its generator (sampling); libstdc++ xsputn transcription; writev complete; part B is a theorem about the abstract model, tied to the real appender by sampled schedules (native OS schedules and VRT-explored interleavings replayed in lock-step), not by a refinement proof; page size 16 (and sizes not divisible by 8) are excluded by hypothesis - the real code overruns the heap there",
 }
 
 
